@@ -41,7 +41,7 @@ ASSUMPTIONS = [
     "rows within a few ulp of a range boundary and numerical-fallback force rows whose stencil crosses a "
     "boundary are not compared (counted)",
 ]
-REQUIRED = {"accept": 60, "reject": 40, "reject:nr%4=2:api_class": 5, "reject:nr%4=2:writePotentials": 5,
+REQUIRED = {"special:root_on_grid": 8, "special:decay_tail": 8, "accept": 60, "reject": 40, "reject:nr%4=2:api_class": 5, "reject:nr%4=2:writePotentials": 5,
             "reject:nr%4=2:potable": 10, "route:potable:DL_POLY": 10, "route:potable:DLPOLY": 10,
             "route:api_class": 15, "route:writePotentials": 15}
 FMT = ("e", 7)
@@ -63,13 +63,21 @@ def _case(draw, nr_max, accept, route=None, rem=None):
     return m
 
 
+@st.composite
+def _special(draw, kind):
+    m = draw(gen.special_pair_model(kind, dlpoly=True))
+    m["route"] = draw(st.sampled_from(["api_class", "writePotentials", "potable:DL_POLY", "potable:DLPOLY"]))
+    return m
+
+
 def strategy(tier):
     return _case(80, True)
 
 
 def strata(tier):
     mx = 80 if tier == "quick" else 2000
-    out = [("accept", _case(mx, True), 12)]
+    out = [("accept", _case(mx, True), 12), ("root_on_grid", _special("root_on_grid"), 2),
+           ("decay_tail", _special("decay_tail"), 2)]
     for route in ("api_class", "writePotentials", "potable:DL_POLY", "potable:DLPOLY"):
         out.append(("reject:even:" + route, _case(mx, False, route, 2), 1))
         out.append(("reject:odd:" + route, _case(mx, False, route), 1))
@@ -149,6 +157,8 @@ def check_case(case):
     nr, cutoff, route = case["nr"], case["cutoff"], case["route"]
     accept = nr % 4 == 0
     cls = ["accept" if accept else "reject", "route:" + route]
+    if case.get("special"):
+        cls.append("special:" + case["special"])
     if not accept:
         cls.append("reject:nr%%4=%d:%s" % (nr % 4, "potable" if route.startswith("potable") else route))
     rk = "potable" if route.startswith("potable") or route == "cli" else "api"
